@@ -239,7 +239,7 @@ def scaling(job, mode, model, K):
                       z3.Or(lift(r2[0]) != k.t * lift(r1[0]), lift(r2[1]) != k.t * lift(r1[1])), R_, inputs, fallback=fb, timeout=30,
                       congruence=cgn, near=1)
         if not got:
-            job.vacuity["failed"].append(tag)
+            job.unreached(tag)
 
 
 def jobs(tier):
